@@ -12,10 +12,6 @@ import Homonim.Model.FuseImage
 import Homonim.Model.Blocks
 namespace Homonim
 
-/-- an image seen through a window: invalid outside it (a boundless, nodata-padded block read) -/
-def ImgO.restrict (img : ImgO) (wr wc : Win1) : ImgO :=
-  fun i j => if wr.lo ≤ i ∧ i < wr.hi ∧ wc.lo ≤ j ∧ j < wc.hi then img i j else none
-
 /-- the pair as one block sees it -/
 def ImagePair.restrict (p : ImagePair) (rinR rinC sinR sinC : Win1) : ImagePair :=
   { p with src := p.src.restrict sinR sinC, ref := p.ref.restrict rinR rinC }
